@@ -520,7 +520,8 @@ def from_json(j):
 
 # ---------------------------------------------------------------- equivalence
 
-EXHAUSTIVE = [{"Some", "None"}, {"Ok", "Err"}, {"true", "false"}]
+# closed sets of constructors (std's and the ones of syn's exhaustive enums the derives dispatch on)
+EXHAUSTIVE = [{"Some", "None"}, {"Ok", "Err"}, {"true", "false"}, {"Fields::Named", "Fields::Unnamed", "Fields::Unit"}, {"Data::Struct", "Data::Enum", "Data::Union"}]
 
 
 def _collect(f, atoms, places):
@@ -706,8 +707,12 @@ def guard_formula(fn, site, parents, lets_text, lets_nodes=None):
                     dblk = d["block"] if A.kind(d) == "Expr::Block" else d
                     tail = _leaves(dblk) if isinstance(dblk, dict) else None
                     env.update(b)
-                    if tail is not None and not (tail.startswith("return Err(") or "panic!" in tail):
-                        conj.append(f)
+                    # what follows a `let P = E else { <leaves> }` runs under `E ~ P`, like the arm of a `match E { P => .. }`
+                    # (also when the else block is itself a refusal: the pattern *binds* what the later code tests)
+                    conj.append(f)
+        elif k == "Stmt::Local" and p.get("init") and p["init"].get("diverge") is not None and _within(site, p["init"]["diverge"]):
+            # the site lies in the `else` block of `let P = E else { .. }`: reached iff E does not match P
+            conj.append(f_not(pat_formula(place_of(p["init"]["expr"], env), p["pat"], {})))
         elif k == "Expr::If":
             if _within(site, p["cond"]):
                 continue
